@@ -379,7 +379,10 @@ Definition remove_edge (removeRoot removeTips : bool) (e : nat) (h : heap) : hre
                      loop rest h
                    else HErr "Problem in edge orientation"
                end) (hneigh hr) h;
-    unconnect_node r h.
+    do h <- unconnect_node r h;
+    (* the contracted branch is referenced by no node any more: garbage, it leaves the heap
+       (as the node and branches of delNode do) *)
+    HOk (mkHeap (hnodes h) (arem e (hedges h)) (hroot h) (hnextn h) (hnexte h)).
 
 (** ** tree.go:294 removeTip(tip) *)
 Definition err_rm_not_tip : string := "Cannot remove node, it is not a tip".
